@@ -215,7 +215,7 @@ func c29OpenerSeq(c *hx.Ctx, n int) {
 // ---- histories ----
 
 type hop struct {
-	kind string // sub addh remh rel relagain peer msg quiesce
+	kind string // sub addh remh rel relagain peer replace msg quiesce
 	a, b int
 }
 
@@ -233,6 +233,8 @@ func (o hop) term() string {
 		return hx.App("HRelAgain", hx.Nat(o.a))
 	case "peer":
 		return hx.App("HPeer", hx.Nat(o.a))
+	case "replace":
+		return hx.App("HReplace", hx.Nat(o.a))
 	case "msg":
 		return hx.App("HMsg", hx.Nat(o.a), hx.Nat(o.b))
 	default:
@@ -257,9 +259,26 @@ type hist struct {
 	problem      string
 }
 
-func genHist(c *hx.Ctx) *hist {
+func genHist(c *hx.Ctx, idx int) *hist {
 	rng := c.Rng
 	h := &hist{chans: []int{1, 2, 3, markerCh}}
+	if idx%5 == 2 {
+		// an announced channel loses its last subscription in the same pass in which the stream of a
+		// known tuple is replaced (either order), with an untouched second channel and peer
+		ch, ch2 := 1+rng.Intn(3), 1+rng.Intn(3)
+		ops := []hop{{"peer", 0, 0}, {"sub", markerSub, markerCh}, {"addh", markerSub, 0}, {"sub", 1, ch}, {"addh", 1, 1}, {"sub", 2, ch2}, {"peer", 1, 0}, {"peer", 2, 0}, {"quiesce", 0, 0}}
+		if rng.Intn(2) == 0 {
+			ops = append(ops, hop{"replace", 1, 0}, hop{"rel", 1, ch})
+		} else {
+			ops = append(ops, hop{"rel", 1, ch}, hop{"replace", 1, 0})
+		}
+		if rng.Intn(2) == 0 {
+			ops = append(ops, hop{"msg", ch, 1})
+		}
+		ops = append(ops, hop{"quiesce", 0, 0})
+		h.ops = ops
+		return h
+	}
 	ops := []hop{{"peer", 0, 0}, {"sub", markerSub, markerCh}, {"addh", markerSub, 0}}
 	if rng.Intn(2) == 0 {
 		ops = append(ops, hop{"quiesce", 0, 0})
@@ -317,6 +336,30 @@ func genHist(c *hx.Ctx) *hist {
 		case x < 14 && nextPeer <= 3:
 			ops = append(ops, hop{"peer", nextPeer, 0})
 			nextPeer++
+		case x < 16 && nextPeer > 1:
+			// the stream of a known tuple is replaced; often in the same pass as a release
+			p := 1 + rng.Intn(nextPeer-1)
+			var live []int
+			for _, s := range subIDs {
+				if !subs[s].released {
+					live = append(live, s)
+				}
+			}
+			relFirst := rng.Intn(2) == 0
+			doRel := len(live) > 0 && rng.Intn(3) != 0
+			rel := func() {
+				s := live[rng.Intn(len(live))]
+				subs[s].released = true
+				subs[s].handlers = nil
+				ops = append(ops, hop{"rel", s, subs[s].ch})
+			}
+			if doRel && relFirst {
+				rel()
+			}
+			ops = append(ops, hop{"replace", p, 0})
+			if doRel && !relFirst {
+				rel()
+			}
 		case x < 18:
 			ops = append(ops, hop{"msg", 1 + rng.Intn(3), nextMsg})
 			nextMsg++
@@ -356,10 +399,25 @@ func runHist(h *hist, keys []keyInfo) {
 	}
 	subs := map[int]*subH{}
 	peers := map[int]*rawPeer{}
+	older := map[int][]*rawPeer{} // replaced streams of the same tuple, oldest first
+	view := func(p int) map[string]bool {
+		out := map[string]bool{}
+		for _, rp := range append(append([]*rawPeer{}, older[p]...), peers[p]) {
+			for ch, on := range rp.told() {
+				out[ch] = on
+			}
+		}
+		return out
+	}
 	var peerIDs []int
 	defer func() {
 		for _, p := range peers {
 			p.close()
+		}
+		for _, l := range older {
+			for _, p := range l {
+				p.close()
+			}
 		}
 	}()
 	liveSubs := map[int]int{} // channel -> live subscriptions
@@ -378,6 +436,12 @@ func runHist(h *hist, keys []keyInfo) {
 		case "peer":
 			peers[op.a] = attachRaw(fs, keys[op.a], uint64(10+op.a))
 			peerIDs = append(peerIDs, op.a)
+			lastOp = time.Now()
+		case "replace":
+			// a new stream for the same (peer, link) tuple: the node cancels the old session; what the
+			// remote peer knows about our subscriptions is keyed by the tuple and stays
+			older[op.a] = append(older[op.a], peers[op.a])
+			peers[op.a] = attachRaw(fs, keys[op.a], uint64(10+op.a))
 			lastOp = time.Now()
 		case "sub":
 			sub, err := fs.AddSubscription(ctx, keys[4].priv, chName(op.b))
@@ -478,7 +542,7 @@ func runHist(h *hist, keys []keyInfo) {
 			// "told iff locally subscribed" three more seconds before recording it
 			waitFor(3*time.Second, 10*time.Millisecond, func() bool {
 				for _, p := range peerIDs {
-					t := peers[p].told()
+					t := view(p)
 					for _, ch := range h.chans {
 						if t[chName(ch)] != (liveSubs[ch] > 0) {
 							return false
@@ -489,7 +553,7 @@ func runHist(h *hist, keys []keyInfo) {
 			})
 			var told [][2]int
 			for _, p := range peerIDs {
-				t := peers[p].told()
+				t := view(p)
 				for _, ch := range h.chans {
 					if t[chName(ch)] {
 						told = append(told, [2]int{p, ch})
@@ -599,7 +663,7 @@ func c29(c *hx.Ctx) {
 	}
 	hs := make([]*hist, nh)
 	for i := range hs {
-		hs[i] = genHist(c)
+		hs[i] = genHist(c, i)
 	}
 	parallel(nh, 24, func(i int) { runHist(hs[i], keys) })
 	for _, h := range hs {
